@@ -20,10 +20,10 @@
      the "exactly once" of C19_notify_once_not_early are therefore restatements of those assumptions about the group;
      what C19 adds is WHEN the group is left (the first completion, or the destructor of a never-performed object).
    - SINGLE-STEP UNFOLDINGS of tstep / gstep with no reachability hypothesis, i.e. readings of the model rather than
-     invariants: C19_leave_iff_increment_returns_1, C19_wait_nonzero_only_by_timeout, C19_wait_returns_group_result,
-     C19_wait_way_out_keeps_other_bits, C19_cancel_while_running_not_interrupted ("not interrupted" is true by
-     construction: PInBody has one outgoing event), C19_no_thread_moves_another, C19_cancel_sets_bit,
-     C19_testcancel_monotone.  Their value is only as good as the tie of the model to the code (site lists, per-thread
+     invariants (9 of them): C19_leave_iff_increment_returns_1, C19_wait_nonzero_only_by_timeout,
+     C19_wait_returns_group_result, C19_wait_way_out_keeps_other_bits, C19_cancel_while_running_not_interrupted ("not
+     interrupted" is true by construction: PInBody has one outgoing event), C19_no_thread_moves_another,
+     C19_cancel_sets_bit, C19_testcancel_monotone, C19_no_use_after_last_release.  Their value is only as good as the tie of the model to the code (site lists, per-thread
      conformance, whole-round replay on the global model).
    - INVARIANTS of every reachable state (inv_reach): all the others.
 
@@ -31,8 +31,12 @@
    (OP_RELEASE, the PDtor program points).  An object destroyed WITHOUT EVER HAVING BEEN PERFORMED leaves its group: registered
    notifications are then submitted although nothing completed.  This is the library's behaviour (confirmed on the real
    library); block.h declares "observed ... and never executed" undefined, so the property's "not before that completion"
-   holds for clients inside the documented contract, and the theorems below state the second way out explicitly
-   (dleave).  Client contract assumed by the release step: it is the last reference — no thread is inside a call on the
+   holds for clients inside the documented contract.  The private group is therefore left in ONE of two ways — by the
+   invocation whose increment of dbpd_performed returns 1, or by that destructor (both disjuncts of
+   C19_only_leave_at_first_completion) — and the second one (dleave) is a way out for NOTIFICATIONS only
+   (C19_notify_once_not_early); for a waiter it is unreachable, which is what C19_wait_zero_* state (dleave s = false).
+   "Still completes for waiters and notifiers" is shown as enabledness (the completion steps are the only steps the
+   invoking thread has), not as a bound on time.  Client contract assumed by the release step: it is the last reference — no thread is inside a call on the
    object, no submission is queued (C19_last_release_is_quiescent) — so a waiter can never be answered by the
    destructor (C19_wait_zero_*: dleave s = false). *)
 From Coq Require Import ZArith Bool List.
